@@ -168,3 +168,11 @@
           (=> (> (occurs c off n v) 0) (and (<= off (occIdx c off n v)) (< (occIdx c off n v) (+ off n)) (= (select c (occIdx c off n v)) v))))
      :pattern ((occurs c off n v)))))
 ;@spec occurs smt=occurs args=(Array_Int_Int),Int,Int,Int res=Int
+; the permutation realised by sort.Strings on c[off..off+n): new[i] = old[sortperm(old,off,n,i)], and its inverse
+(declare-fun sortperm ((Array Int Int) Int Int Int) Int)
+(declare-fun sortpermInv ((Array Int Int) Int Int Int) Int)
+;@spec sortperm smt=sortperm args=(Array_Int_Int),Int,Int,Int res=Int
+;@spec sortpermInv smt=sortpermInv args=(Array_Int_Int),Int,Int,Int res=Int
+; size reported by an os.FileInfo value
+(declare-fun statsize (Int) Int)
+;@spec statsize smt=statsize args=Int res=Int
